@@ -231,6 +231,9 @@ def Mon.step (m : Mon) (e : Ev) : Mon :=
         let owner := lookup m.bodyTask j
         let m := if owner.isNone then { m with bodyTask := m.bodyTask ++ [(j, i)] } else m
         let ti := owner.getD i
+        -- `block_on` without a waitable set: a YIELD is answered by polling again at once, no token marks the
+        -- new callback — a poll that starts while no set exists starts a new round
+        let m := if m.block && !(m.get ti).hadSet then m.upd ti fun t => { t with wokeInRound := false, polledInRound := false } else m
         let t := m.get ti
         let m := if t.exited then m.flag "poll-after-exit" else m
         let m := if m.ended.contains j then m.flag "poll-after-exit" else m
